@@ -23,6 +23,7 @@ struct PeerStream {
     odd_head: bool,       // the peer's head was unusual (content-length, 204, malformed): not a stream for C09's DATA entries
     peer_reset: bool,     // the peer sent RST_STREAM
     promised: bool,       // client role: a stream the peer has promised (PUSH_PROMISE); `responded` = the pushed response began
+    cl_left: Option<i64>, // the peer's head announced a content-length: what is left of it (negative: surplus sent)
 }
 
 struct G<'a> {
@@ -38,6 +39,7 @@ struct G<'a> {
     pending_iws: Option<i64>,  // announced, not yet acknowledged by the (scripted) peer
     settings_to_ack: usize,
     pongs_owed: Vec<Vec<u8>>,
+    dfb: Option<usize>,         // data_frame_budget, when configured
     mhl: Option<usize>,         // max_header_list_size, when configured   // PINGs the endpoint sent and the peer has not answered yet
     next_peer_sid: u32,
     woken: BTreeSet<String>,
@@ -51,6 +53,8 @@ struct G<'a> {
     last_was_poll: bool,
     /// client role: the next stream id the scripted peer promises
     next_push_id: u32,
+    /// server role: the highest stream id the endpoint has promised so far
+    max_promised: u32,
     /// the client accepts pushes (SETTINGS_ENABLE_PUSH not switched off by the history's options)
     push_ok: bool,
     accepted: BTreeSet<u32>,
@@ -73,6 +77,13 @@ impl<'a> G<'a> {
                 "panic".to_string()
             }
         };
+        if ws.first().map(|w| *w == "cn_push" || *w == "cn_pushk").unwrap_or(false) {
+            if let Some(rest) = Self::field(&ans, "r=").strip_prefix("ok:") {
+                if let Some(sid) = rest.split(':').last().and_then(|x| x.parse::<u32>().ok()) {
+                    self.max_promised = self.max_promised.max(sid);
+                }
+            }
+        }
         self.digest(&ans);
         ans
     }
@@ -97,8 +108,14 @@ impl<'a> G<'a> {
                         let sid: u32 = p[1].parse().unwrap_or(0);
                         let fl: u32 = p[2].parse().unwrap_or(0);
                         let iws = self.our_iws;
+                        let pushed = self.role == "server" && sid % 2 == 0;
                         let s = self.streams.entry(sid).or_insert_with(|| PeerStream { credit: iws, ..Default::default() });
                         s.headers_seen = true;
+                        if pushed {
+                            // a stream the endpoint has pushed: the peer sends nothing but RST_STREAM / WINDOW_UPDATE on it
+                            s.promised = true;
+                            s.peer_closed = true;
+                        }
                         if fl & 1 != 0 {
                             s.we_closed = true;
                         }
@@ -224,6 +241,101 @@ impl<'a> G<'a> {
         }
     }
 
+    /// offsets at which a field of an HPACK block (as this generator writes them: no Huffman, lengths below 127)
+    /// ends and another begins
+    fn field_bounds(block: &[u8]) -> Vec<usize> {
+        let mut out = vec![];
+        let mut i = 0usize;
+        let lit = |b: &[u8], mut i: usize, name_literal: bool| -> Option<usize> {
+            if name_literal {
+                let n = *b.get(i)? as usize;
+                if n >= 127 {
+                    return None;
+                }
+                i += 1 + n;
+            }
+            let n = *b.get(i)? as usize;
+            if n >= 127 {
+                return None;
+            }
+            i += 1 + n;
+            if i <= b.len() { Some(i) } else { None }
+        };
+        while i < block.len() {
+            let b = block[i];
+            let next = if b & 0x80 != 0 {
+                if b & 0x7f == 0x7f { None } else { Some(i + 1) }
+            } else if b & 0xc0 == 0x40 {
+                match b & 0x3f {
+                    0 => lit(block, i + 1, true),
+                    0x3f => lit(block, i + 2, false),
+                    _ => lit(block, i + 1, false),
+                }
+            } else if b & 0xe0 == 0x20 {
+                if b & 0x1f == 0x1f { None } else { Some(i + 1) }
+            } else {
+                match b & 0x0f {
+                    0 => lit(block, i + 1, true),
+                    0x0f => lit(block, i + 2, false),
+                    _ => lit(block, i + 1, false),
+                }
+            };
+            match next {
+                Some(n) if n > i => {
+                    i = n;
+                    if i < block.len() {
+                        out.push(i);
+                    }
+                }
+                _ => return vec![],
+            }
+        }
+        out
+    }
+
+    /// the first content-length value a block written by this generator announces
+    fn cl_of(block: &[u8]) -> Option<i64> {
+        let name = b"content-length";
+        let mut i = 0;
+        while i + 2 < block.len() {
+            let v = if block[i] == 0x0f && block[i + 1] == 0x0d {
+                Some(i + 2)
+            } else if block[i] as usize == name.len() && block.len() >= i + 1 + name.len() && &block[i + 1..i + 1 + name.len()] == name {
+                Some(i + 1 + name.len())
+            } else {
+                None
+            };
+            if let Some(j) = v {
+                let n = *block.get(j)? as usize;
+                let digits = block.get(j + 1..j + 1 + n)?;
+                return std::str::from_utf8(digits).ok()?.parse().ok();
+            }
+            i += 1;
+        }
+        None
+    }
+
+    /// the peer sends a head: in one HEADERS frame, or — half of the time when it has several fields — cut at a
+    /// field boundary into HEADERS + CONTINUATION (what is malformed in one frame is malformed in two: C13)
+    fn peer_head(&mut self, sid: u32, eos: bool, block: &[u8]) {
+        if let Some(n) = Self::cl_of(block) {
+            if let Some(s) = self.streams.get_mut(&sid) {
+                if s.cl_left.is_none() {
+                    s.cl_left = Some(n);
+                }
+            }
+        }
+        let cuts = Self::field_bounds(block);
+        if !cuts.is_empty() && self.rng.chance(1, 2) {
+            let cut = *self.rng.pick(&cuts);
+            let mut b = wire(1, if eos { 1 } else { 0 }, sid, &block[..cut]);
+            b.extend(wire(9, 4, sid, &block[cut..]));
+            self.peer(b);
+        } else {
+            self.peer(wire(1, 4 | if eos { 1 } else { 0 }, sid, block));
+        }
+    }
+
     fn peer_data(&mut self, sid: u32) {
         let (scredit, closed) = match self.streams.get(&sid) {
             Some(s) => (s.credit, s.peer_closed),
@@ -236,7 +348,17 @@ impl<'a> G<'a> {
         if maxlen < 0 {
             return;
         }
-        let want = *self.rng.pick(&[0i64, 1, 5, 100, 999, 1000, 5000, 16384, 70000]);
+        let mut want = *self.rng.pick(&[0i64, 1, 5, 100, 999, 1000, 5000, 16384, 70000]);
+        // a body that was announced with a content-length often ends exactly on it (and now and then goes on from
+        // there: the surplus must not be delivered, C13)
+        let left = self.streams.get(&sid).and_then(|s| s.cl_left);
+        if let Some(l) = left {
+            if l > 0 && self.rng.chance(2, 3) {
+                want = l;
+            } else if l == 0 && self.rng.chance(1, 2) {
+                want = *self.rng.pick(&[1i64, 3, 5]);
+            }
+        }
         let padded = self.rng.chance(1, 4);
         let padn = if padded { self.rng.below(30) as i64 } else { 0 };
         let overhead = if padded { 1 + padn } else { 0 };
@@ -247,7 +369,12 @@ impl<'a> G<'a> {
         if len < 0 {
             return;
         }
-        let eos = self.rng.chance(1, 8);
+        let eos = self.rng.chance(1, 8) || (left.map(|l| l <= len).unwrap_or(false) && self.rng.chance(1, 2));
+        if let Some(s) = self.streams.get_mut(&sid) {
+            if let Some(l) = s.cl_left.as_mut() {
+                *l -= len;
+            }
+        }
         let mut p = vec![];
         let mut fl = if eos { 1 } else { 0 };
         if padded {
@@ -436,6 +563,65 @@ impl<'a> G<'a> {
         }
         if self.rng.chance(1, 3) {
             self.op(format!("cn_drop {} pushes", k));
+        }
+    }
+
+    /// server push against a small SETTINGS_MAX_CONCURRENT_STREAMS of the client: several streams are promised on one
+    /// request, the promises go out, and only then the pushed responses are sent — each one has to wait for a slot
+    /// (C05: a promised stream starts to count when its response begins)
+    fn server_push_prelude(&mut self) {
+        let m = *self.rng.pick(&[1u32, 1, 2]);
+        let mut p = vec![0u8, 3];
+        p.extend_from_slice(&m.to_be_bytes());
+        self.peer(wire(4, 0, 0, &p));
+        self.op("cn_poll".to_string());
+        let sid = self.next_peer_sid;
+        self.next_peer_sid += 2;
+        let iws = self.our_iws;
+        self.streams.insert(sid, PeerStream { credit: iws, headers_seen: true, peer_closed: true, ..Default::default() });
+        self.peer(wire(1, 5, sid, &[0x82, 0x86, 0x84, 0x41, 0x01, b'a']));
+        self.op("cn_poll".to_string());
+        let k = self.nslots;
+        let a = self.op("cn_accept".to_string());
+        match Self::field(&a, "r=").strip_prefix("ok:") {
+            Some(rest) => {
+                let p: Vec<&str> = rest.split(':').collect();
+                let sid: u32 = p[1].parse().unwrap_or(0);
+                self.nslots += 1;
+                self.slot_sid.push(sid);
+                self.accepted.insert(sid);
+            }
+            None => return,
+        }
+        let mut pushed = vec![];
+        let npush = 2 + self.rng.below(2);
+        for _ in 0..npush {
+            let a = self.op(format!("cn_pushk {} /push{}", k, self.nslots));
+            if let Some(rest) = Self::field(&a, "r=").strip_prefix("ok:") {
+                let p: Vec<&str> = rest.split(':').collect();
+                let sid: u32 = p[1].parse().unwrap_or(0);
+                pushed.push(self.nslots);
+                self.nslots += 1;
+                self.slot_sid.push(sid);
+            }
+        }
+        if self.rng.chance(3, 4) {
+            self.op("cn_poll".to_string()); // the promises are written before any pushed response exists
+        }
+        for ps in pushed.clone() {
+            self.op(format!("cn_respond {} 200 0", ps));
+        }
+        self.op("cn_poll".to_string());
+        for ps in pushed {
+            if self.rng.chance(3, 4) {
+                let n = *self.rng.pick(&[0usize, 5, 1000]);
+                self.op(format!("cn_data {} {} 1", ps, n));
+                self.op("cn_poll".to_string());
+            }
+        }
+        if self.rng.chance(1, 2) {
+            self.op(format!("cn_respond {} 200 1", k));
+            self.op("cn_poll".to_string());
         }
     }
 
@@ -752,7 +938,7 @@ impl<'a> G<'a> {
                             }
                         }
                     }
-                    self.peer(wire(1, 4 | if eos && !informational { 1 } else { 0 }, sid, &block));
+                    self.peer_head(sid, eos && !informational, &block);
                 }
             }
             60..=66 => {
@@ -940,6 +1126,8 @@ impl<'a> G<'a> {
                     8 => block = vec![0x82, 0x86],                                      // :method, :scheme and nothing else
                     9 => block = vec![0x02, 0x07, b'C', b'O', b'N', b'N', b'E', b'C', b'T'], // CONNECT without :authority
                     10 => block = vec![0x02, 0x07, b'C', b'O', b'N', b'N', b'E', b'C', b'T', 0x41, 0x03, b'a', b':', b'1'], // a proper CONNECT
+                    13 => block = [vec![0x00, 0x03, b'x', b'-', b'a', 0x01, b'1'], block.clone()].concat(),   // pseudo-header fields after a regular one
+                    14 => block = vec![0x82, 0x86, 0x84, 0x00, 0x03, b'x', b'-', b'a', 0x01, b'1', 0x41, 0x01, b'a'], // … one of them
                     _ => {}
                 }
                 let mut odd = false;
@@ -956,8 +1144,11 @@ impl<'a> G<'a> {
                     odd = true;
                 }
                 let iws = self.our_iws;
+                // (a stream opened after the endpoint has said GOAWAY lies above its cut-off: it is ignored, and so is
+                //  what the catalogue would inject on it)
+                let odd = odd || self.going_away();
                 self.streams.insert(sid, PeerStream { credit: iws, headers_seen: true, peer_closed: eos, odd_head: odd, ..Default::default() });
-                self.peer(wire(1, 4 | if eos { 1 } else { 0 }, sid, &block));
+                self.peer_head(sid, eos, &block);
             }
             8..=25 => {
                 let c = self.live_sids(|s| !s.peer_closed);
@@ -1086,6 +1277,24 @@ impl<'a> G<'a> {
             87 if self.rng.chance(1, 5) => {
                 self.op("cn_graceful".to_string());
             }
+            89..=91 => {
+                // server push: promise a stream on a request that is still being answered and keep the handle (a new
+                // slot: the pushed response is sent by the steps that follow, before or after the PUSH_PROMISE went out)
+                if let Some(k) = self.pick_slot() {
+                    let a = self.op(format!("cn_pushk {} /push{}", k, self.nslots));
+                    if let Some(rest) = Self::field(&a, "r=").strip_prefix("ok:") {
+                        let p: Vec<&str> = rest.split(':').collect();
+                        let sid: u32 = p[1].parse().unwrap_or(0);
+                        self.nslots += 1;
+                        self.slot_sid.push(sid);
+                    }
+                }
+            }
+            92 => {
+                if let Some(k) = self.pick_slot() {
+                    self.op(format!("cn_push {} /dropped", k));
+                }
+            }
             88 => {
                 if let Some(k) = self.pick_slot() {
                     self.op(format!("cn_trailers {}", k));
@@ -1184,6 +1393,17 @@ impl<'a> G<'a> {
             let hsid = if client { some_sid.max(1) } else { self.next_peer_sid + 2 };
             let head = if client { wire(1, 0, hsid, &[0x88]) } else { wire(1, 0, hsid, &[0x82, 0x86, 0x84, 0x41, 0x01, b'a']) };
             let tail = wire(9, 4, hsid, &[0x00, 0x01, b'x', 0x01, b'y']);
+            // a field block that stops in the middle of a field, in its last fragment as in its only one:
+            // a decoding error is a connection error COMPRESSION_ERROR (RFC 9113 section 4.3)
+            {
+                let mut b = head.clone();
+                b.extend(wire(9, 4, hsid, &[0x00, 0x05, b'x']));
+                cands.push(("conn", 0, b));
+                let mut b = head.clone();
+                b.extend(wire(9, 0, hsid, &[0x00, 0x01, b'x', 0x01, b'y']));
+                b.extend(wire(9, 4, hsid, &[0x00, 0x01, b'z', 0x09, b'v']));
+                cands.push(("conn", 0, b));
+            }
             for mid in [
                 wire(0x2a, 0, hsid, b"ext"),                         // extension frame on the same stream
                 wire(0x17, 0, 0, &[]),                               // extension frame on stream 0
@@ -1221,6 +1441,32 @@ impl<'a> G<'a> {
                 cands.push(("connflood", 0, b));
             }
         }
+        if self.dfb.is_some() {
+            // a flood of tiny DATA frames that nobody reads: each costs the receiver far more than its payload; the
+            // budget for that (data_frame_budget) cuts the connection off — whether the octets that make the frame
+            // look bigger are payload or padding (C18)
+            if let Some(sid) = open_both.first() {
+                let c = self.streams[sid].credit.min(self.conn_credit);
+                if c >= 14 && !self.streams[sid].recv_dropped {
+                    let mut b = vec![];
+                    for _ in 0..14 {
+                        b.extend(wire(0, 0, *sid, b"t"));
+                    }
+                    cands.push(("connflood", 0, b.clone()));
+                    cands.push(("connflood", 0, b));
+                }
+                if c >= 14 * 257 && !self.streams[sid].recv_dropped {
+                    let mut b = vec![];
+                    let mut pl = vec![255u8, b't'];
+                    pl.extend(std::iter::repeat(0u8).take(255));
+                    for _ in 0..14 {
+                        b.extend(wire(0, 8, *sid, &pl));
+                    }
+                    cands.push(("connflood", 0, b.clone()));
+                    cands.push(("connflood", 0, b));
+                }
+            }
+        }
         if client && some_sid != 0 {
             // more pushed responses than the client's max_concurrent_streams allows at once: the surplus is refused,
             // the connection survives (F31: it used to panic)
@@ -1244,7 +1490,8 @@ impl<'a> G<'a> {
             cands.push(("conn", 0, wire(5, 4, some_sid.max(1), &[0, 0, 0, 1, 0x82, 0x86, 0x84]))); // PUSH_PROMISE promising an odd id
         } else {
             cands.push(("conn", 0, wire(5, 4, 1, &[0, 0, 0, 2, 0x82, 0x86, 0x84])));              // PUSH_PROMISE to a server
-            let even = 2 + 2 * self.rng.below(5) as u32;
+            // (an even id the endpoint has not promised itself)
+            let even = self.max_promised + 2 + 2 * self.rng.below(5) as u32;
             if fresh_ids_judged {
                 cands.push(("conn", 0, wire(1, 4, even, &[0x82, 0x86, 0x84])));                   // client uses an even id
             }
@@ -1442,6 +1689,28 @@ impl<'a> G<'a> {
             self.op("cn_poll".to_string());
             self.op("cn_io".to_string());
         }
+        if self.role == "client" && self.rng.chance(1, 4) && !self.dead {
+            // the application lets go of everything: the idle client says GOAWAY(NO_ERROR), shuts the transport down and
+            // finishes — at once, or, when the transport does not take its goodbye, as soon as it does; it does not spin
+            // meanwhile (C19 / C08)
+            let blocked = self.rng.chance(1, 2);
+            if blocked {
+                self.op("cn_budget 0".to_string());
+            }
+            for k in 0..self.nslots {
+                self.op(format!("cn_drop {} all", k));
+            }
+            self.op("cn_drop_sr main".to_string());
+            for _ in 0..5 {
+                self.op("cn_poll".to_string());
+            }
+            if blocked {
+                self.op("cn_budget inf".to_string());
+                self.op("cn_poll".to_string());
+                self.op("cn_poll".to_string());
+            }
+            self.op("cn_io".to_string());
+        }
         match self.rng.below(9) {
             0 => {
                 self.op("cn_eof".to_string());
@@ -1457,7 +1726,10 @@ impl<'a> G<'a> {
                 if self.rng.chance(1, 2) {
                     self.op("cn_poll".to_string());
                 }
-                let mut g2 = last.to_be_bytes().to_vec();
+                // … or, after a notice that covers everything, the real cut-off: streams above it are refused by the
+                // SECOND frame and report ITS code and debug data (C17)
+                let last2: u32 = if last == 0x7fff_ffff && self.rng.chance(2, 3) { 2 * self.rng.below(6) as u32 + 1 } else { last };
+                let mut g2 = last2.to_be_bytes().to_vec();
                 g2.extend_from_slice(&[0, 0, 0, 11]);
                 g2.extend_from_slice(b"too_many_pings");
                 self.peer(wire(7, 0, 0, &g2));
@@ -1522,6 +1794,35 @@ impl<'a> G<'a> {
         }
     }
 
+    /// the application reads what the last few exchanges have delivered, to the end (what h2 hands over — heads,
+    /// bodies, clean ends, trailers — is what the C13 / C01 rules judge)
+    fn read_all(&mut self) {
+        self.op("cn_budget inf".to_string());
+        self.op("cn_poll".to_string());
+        let lo = self.nslots.saturating_sub(6);
+        for k in lo..self.nslots {
+            if self.dead {
+                return;
+            }
+            if self.role == "client" {
+                self.op(format!("cn_resp {}", k));
+            }
+            for _ in 0..40 {
+                let a = self.op(format!("cn_read {}", k));
+                match Self::field(&a, "r=").strip_prefix("data:") {
+                    Some(rest) => {
+                        let n: usize = rest.split(':').next().unwrap_or("0").parse().unwrap_or(0);
+                        if n > 0 {
+                            self.op(format!("cn_release {} {}", k, n));
+                        }
+                    }
+                    None => break,
+                }
+            }
+            self.op(format!("cn_rtrailers {}", k));
+        }
+    }
+
     fn drain(&mut self) {
         self.op("cn_budget inf".to_string());
         for _ in 0..6 {
@@ -1573,10 +1874,22 @@ pub fn generate(profile: &str, rng: &mut Rng, cases: usize, out: &mut dyn Write)
         if flavor == "c09" && rng.chance(1, 4) {
             mhl = Some(16384usize);
             opts.push("mhl=16384".to_string());
+        } else if flavor != "c09" && rng.chance(1, 6) {
+            // a header-list limit small enough that ordinary heads with one field more exceed it: the library answers
+            // 431 / resets by itself (those streams count and are released like any other)
+            let m = *rng.pick(&[64usize, 200, 200]);
+            mhl = Some(m);
+            opts.push(format!("mhl={}", m));
+        }
+        let mut dfb = None;
+        if flavor == "c09" && rng.chance(1, 4) {
+            dfb = Some(3000usize);
+            opts.push("budget=3000".to_string());
         }
         let mut g = G {
             rng,
             out,
+            dfb,
             cn: ConnH::none(),
             role,
             nslots: 0,
@@ -1597,6 +1910,7 @@ pub fn generate(profile: &str, rng: &mut Rng, cases: usize, out: &mut dyn Write)
             peer_goaway_last: None,
             last_was_poll: false,
             next_push_id: 2,
+            max_promised: 0,
             push_ok: role == "client" && !opts.iter().any(|o: &String| o.starts_with("push=0")),
             accepted: BTreeSet::new(),
             flavor,
@@ -1636,6 +1950,9 @@ pub fn generate(profile: &str, rng: &mut Rng, cases: usize, out: &mut dyn Write)
         if role == "client" && flavor != "c09" && g.rng.chance(1, 5) {
             g.push_prelude();
         }
+        if role == "server" && flavor != "c09" && g.rng.chance(1, 6) {
+            g.server_push_prelude();
+        }
         let nops = if flavor == "c09" { 5 + g.rng.below(60) } else { 20 + g.rng.below(180) };
         // in half of the histories the connection is often polled right after a single operation, although nobody
         // may have woken it: such a poll must find nothing to write (C06: a handle that gives the connection work
@@ -1657,6 +1974,9 @@ pub fn generate(profile: &str, rng: &mut Rng, cases: usize, out: &mut dyn Write)
         if !g.dead && flavor == "c09" {
             g.inject_c09();
         } else if !g.dead {
+            if g.rng.chance(1, 2) {
+                g.read_all();
+            }
             g.drain();
             if g.rng.chance(1, 3) {
                 g.ending_epilogue();
